@@ -36,7 +36,7 @@ func w2History(r *prng.R, matcher int, special int) []w2call {
 	var h []w2call
 	wr := func(fam string, n int) {
 		if matcher == 1 && fam != "random" && fam != "text" && n > 12000 {
-			n = 12000
+			n = 30000
 		}
 		h = append(h, w2call{Op: 'W', Fam: fam, N: n, Seed: r.U64()})
 	}
